@@ -155,6 +155,10 @@ def affine_map(r: R, chk, quals, rule="AFFINE-MAP"):
             if not (isinstance(v, (ast.ListComp, ast.GeneratorExp)) and len(v.generators) == 1 and isinstance(v.generators[0].target, ast.Name) and not v.generators[0].ifs):
                 continue
             it = v.generators[0].iter
+            if isinstance(it, ast.Name):
+                ds = [x.value for x in ast.walk(fi.node) if isinstance(x, ast.Assign) and len(x.targets) == 1 and isinstance(x.targets[0], ast.Name) and x.targets[0].id == it.id]
+                if len(ds) == 1:
+                    it = ds[0]
             if not (isinstance(it, ast.Attribute) and it.attr == "ctrlpoints" and isinstance(it.value, ast.Name) and it.value.id in copies | {"self"}):
                 continue
             var = v.generators[0].target.id
@@ -177,7 +181,7 @@ def run(m, chk):
         "on every return site the returned curve depends on both operands, and on the weights of an operand unless the path established `weights is None` (DEP-MAY). "
         "Pointwise equality of the values and the correctness of the combined knot vector are not decided."
     )
-    chk.decides = ["AFFINE-MAP (a result on the operand's own basis maps the control points affinely)", "MEMO-KEY (no function on the path is memoised by the value of numbers / knot vectors)", "PURE", "FRESH", "GATE(limits ⇒ ValueError)", "DELEGATE", "DEP-MAY per return site", 'POLY-ONLY (polynomial helpers only under weights is None)', 'INTERVAL', 'REFLECTED (x - A, M @ A, x / A are not A - x, A @ M, A / x)', 'ZIP-ALIGN (parallel lists are zipped with the same slice)']
+    chk.decides = ["RESULT-HOMOG (every curve an operator returns is of degree 0 in the weights of each operand: no numerator / denominator factor missing or doubled)", "AFFINE-MAP (a result on the operand's own basis maps the control points affinely)", "MEMO-KEY (no function on the path is memoised by the value of numbers / knot vectors)", "PURE", "FRESH", "GATE(limits ⇒ ValueError)", "DELEGATE", "DEP-MAY per return site", 'POLY-ONLY (polynomial helpers only under weights is None)', 'INTERVAL', 'REFLECTED (x - A, M @ A, x / A are not A - x, A @ M, A / x)', 'ZIP-ALIGN (parallel lists are zipped with the same slice)']
     chk.not_decided = ["(A op B)(u) = A(u) op B(u) as values", "correctness of the combined knot vector (fails for different degrees with interior knots — consequence of the | defect, DESIGN §5)"]
     for name in ALL:
         q = B + name
@@ -211,7 +215,8 @@ def run(m, chk):
         q = B + name
         fi = r.prog.func(q)
         body = [s for s in fi.node.body if not (isinstance(s, ast.Expr) and isinstance(s.value, ast.Constant))]
-        ok = len(body) == 1 and isinstance(body[0], ast.Return) and any(c.callees for c in r.root(q).calls)
+        # a single `return <base operators>`, possibly through locals (`opposite = -other; return self + opposite`)
+        ok = bool(body) and isinstance(body[-1], ast.Return) and all(isinstance(s_, ast.Assign) and all(isinstance(t_, ast.Name) for t_ in s_.targets) for s_ in body[:-1]) and any(c.callees for c in r.root(q).calls)
         chk.ob("DELEGATE", f"{q}: a single `return` delegating to the base operators", ok, loc=f"curves.py:{fi.node.lineno}", detail="" if ok else f"{q}: no longer a pure delegation", func=q, construct="not a delegation")
     from .extra import interval_from_operand, poly_only, reflected_ops, zip_align
 
@@ -256,3 +261,6 @@ def run(m, chk):
     nm = memo_key(r, chk, entries=['curves.BaseCurve.__add__', 'curves.BaseCurve.__sub__', 'curves.BaseCurve.__mul__', 'curves.BaseCurve.__matmul__', 'curves.BaseCurve.__truediv__', 'curves.BaseCurve.__rtruediv__', 'curves.BaseCurve.__rmatmul__', 'curves.BaseCurve.__rmul__', 'curves.BaseCurve.__radd__', 'curves.BaseCurve.__rsub__', 'curves.BaseCurve.__neg__'])
     chk.floor("MEMO-KEY", "functions reachable from the entry points examined for value-keyed memoisation", nm, 3)
     affine_map(r, chk, [B + name for name in ALL])
+    from .homog import result_homog
+
+    result_homog(r, chk, [B + n_ for n_ in ("__add__", "__mul__", "__matmul__", "__truediv__", "__rtruediv__")], per_operand=True, floor=8)
